@@ -510,3 +510,53 @@ def run_repo_tests(modname: str, repo: str) -> dict:
     except BaseException as ex:  # pylint: disable=broad-except
         return {"<file>": "error:" + type(ex).__name__}
     return outcomes
+
+
+# ------------------------------------------------------------------ history helpers shared by the checks
+
+
+def failed_docs_page(dep_module: str) -> str:
+    """Runs the documentation parser on a synthetic law that imports `dep_module`, creates symbols and
+    then raises inside an evaluation-disabled window; the error is caught like a caller would."""
+    import ast as _ast  # pylint: disable=import-outside-toplevel
+    from symplyphysics.docs.parse import find_members_and_functions  # pylint: disable=import-outside-toplevel
+    from symplyphysics.docs.patch import patch_sympy_evaluate  # pylint: disable=import-outside-toplevel
+    src = ('"""\nBroken law\n==========\n"""\nfrom sympy import Eq\nfrom symplyphysics import symbols, clone_as_symbol, Symbol, Function\n'
+           f'import {dep_module} as dep\n'
+           'first = clone_as_symbol(symbols.mass, subscript="1")\n"""\nFirst.\n"""\nsecond = Symbol("m")\n"""\nSecond.\n"""\n'
+           'law = Eq(first, second * this_name_is_not_defined)\n"""\n:laws:symbol::\n"""\n')
+    try:
+        find_members_and_functions(patch_sympy_evaluate(_ast.parse(src)))
+        return "no-error"
+    except Exception as e:  # pylint: disable=broad-except
+        return "raised:" + type(e).__name__
+
+
+def churn_dimensions(k: int) -> str:
+    """Temporary quantities with temporary dimension expressions: created, printed, converted, dropped."""
+    import gc  # pylint: disable=import-outside-toplevel
+    from sympy.physics import units  # pylint: disable=import-outside-toplevel
+    from symplyphysics import Quantity, convert_to_si  # pylint: disable=import-outside-toplevel
+    from symplyphysics.core.dimensions import dimension_to_si_unit  # pylint: disable=import-outside-toplevel
+    out = hashlib.sha256()
+    bases = [units.length, units.time, units.mass, units.temperature, units.current]
+    si = [units.meter, units.second, units.kilogram, units.kelvin, units.ampere]
+    for i in range(k):
+        a, b = i % 5, (i * 3 + 1) % 5
+        pa, pb = 1 + i % 3, 1 + (i // 3) % 2
+        dim = bases[a]**pa / bases[b]**pb
+        want = si[a]**pa / si[b]**pb
+        try:
+            unit = dimension_to_si_unit(dim)
+            if unit != want:
+                return f"WRONG: dimension_to_si_unit({dim}) returned {unit}, expected {want} (iteration {i})"
+            q = Quantity((i + 1) * want)
+            out.update(str(unit).encode())
+            out.update(str(q).encode())
+            out.update(str(convert_to_si(q)).encode())
+        except Exception as e:  # pylint: disable=broad-except
+            return f"WRONG: valid use of the quantity API raised {type(e).__name__}: {str(e)[:140]} (iteration {i}, dimension {dim})"
+        del dim, unit, q
+        if i % 7 == 0:
+            gc.collect()
+    return out.hexdigest()[:12]
